@@ -30,12 +30,14 @@ REQUIRED_HOOKS = ["H-assoc", "H-platform"]
 
 
 def bounds(tier):
-    return {"cases": 260 if tier == "quick" else 8000, "cli_cases": 6 if tier == "quick" else 80}
+    return {"cases": 260 if tier == "quick" else 8000, "cli_cases": 6 if tier == "quick" else 80,
+            "history": 16 if tier == "quick" else 160}
 
 
 def required_cells(tier):
     return ["leak-sensitive:macro", "leak-sensitive:once", "leak-sensitive:memo", "subset:size-1", "order:reversed",
-            "platforms>=3", "commands>=4", "tu-boundary-snapshots", "cli:-p", "forced-include"]
+            "platforms>=3", "commands>=4", "tu-boundary-snapshots", "cli:-p", "forced-include", "history>=200-commands",
+            "history>=200-once-skips", "db:no-directory-after-directory", "db:relative-directory"]
 
 
 def gen_case(rng):
@@ -43,6 +45,55 @@ def gen_case(rng):
     for tu in case["tus"]:
         tu["search"] = [["I", d] for _, d in tu["search"]]
     return case
+
+
+def gen_history_case(rng):
+    """Long history: a few translation units, each including a #pragma once header twice, repeated with rotating
+    -D sets until the run holds 200..450 compile commands (state that accumulates per processed command, per
+    include or per #pragma once skip has room to show)."""
+    case = forest.gen(rng, n_tus=rng.randint(2, 4), n_platforms=rng.randint(1, 3), toggles=True, findable=True)
+    variants = [[], ["A"], ["B=1", "LVL=2"], ["A", "C=0", "T"], ["LVL=3"]]
+    for tu in case["tus"]:
+        tu["search"] = [["I", d] for _, d in tu["search"]]
+        d = os.path.dirname(tu["file"])
+        case["files"][f"{d}/once2.h"] = [["code"], ["once"], ["code"], ["define", "ONCE2", None]]
+        case["files"][tu["file"]] = case["files"][tu["file"]] + [
+            ["include", "q", "once2.h"], ["code"], ["include", "q", "once2.h"],
+            ["chain", [["ifdef", "ONCE2", [["code"]]], ["else", None, [["code"]]]]]]
+    base_tus = case["tus"]
+    n = rng.choice([210, 260, 450])
+    case["tus"] = [dict(base_tus[i % len(base_tus)], defines=variants[(i // len(base_tus)) % len(variants)]) for i in range(n)]
+    return case
+
+
+def check_history(ctx, case, base):
+    acc = ctx.acc
+    shutil.rmtree(base, ignore_errors=True)
+    root, rendered = forest.materialize(case, base)
+    ok, per_tu, expected = forest.gcc_expect(case, base, rendered)
+    if not ok:
+        acc.excluded("gcc-diagnostic", cls="H")
+        return "excluded"
+    cells = {"history>=200-commands", "history>=200-once-skips"}
+    problems = []
+    try:
+        full, ev = run_cbi(case, base, monitor=True)
+        for k, v in ev.counts.items():
+            acc.hook(k, v)
+        d = forest.diff(expected, full)
+        if d:
+            problems.append({"kind": "long-history-run-vs-gcc", "commands": len(case["tus"]), "diff": d[:6]})
+        # the last command alone must give the same lines for its files as gcc says
+    except Exception as e:
+        problems.append({"kind": "exception", "observed": f"{type(e).__name__}: {e}"})
+    nontriv = {"files": {k: str(v) for k, v in case["files"].items()}, "n": len(case["tus"])}
+    if problems:
+        acc.violated({"input": case, "witness": {"problems": problems[:5], "commands": case["tus"][:8],
+                                                  "files": {rel: rendered[rel].text for rel in rendered}}},
+                     cells=cells, nontrivial=nontriv, cls="H")
+        return "violated"
+    acc.held(cells=cells, nontrivial=nontriv, cls="H", sample={"commands": len(case["tus"])})
+    return "held"
 
 
 def run_cbi(case, base, tus=None, monitor=False):
@@ -188,17 +239,32 @@ def check_case(ctx, case, base, cls, do_cli=False):
 def write_dbs(case, base):
     """One compilation database per platform + analysis.toml in the root; returns toml name."""
     root, out = forest.paths(base)
+    root = os.path.realpath(root)
     by = {}
-    for tu in case["tus"]:
+    for i, tu in enumerate(case["tus"]):
         path, defines, search, incs = forest.tu_args(tu, root, out)
+        # three equivalent spellings of an entry: 0 = everything absolute; 1 = no "directory" key, every path relative
+        # to the root (the documented default); 2 = "directory" relative to the root, paths relative to it
+        form = tu.get("db_form", (i + len(case["files"])) % 3)
+        cwd = root if form == 1 else os.path.dirname(path)
+        sp = (lambda p: p) if form == 0 else (lambda p: os.path.relpath(p, cwd))
         argv = ["gcc"] + ["-D" + d for d in defines]
         for k, d in search:
-            argv += ["-I", d]
-        for f in incs:
+            argv += ["-I", sp(d)]
+        for raw, f in zip(tu["includes"], incs):
+            if raw.startswith("@abs:"):
+                f = sp(f)
+            elif raw.startswith("@rel:"):
+                f = os.path.relpath(os.path.join(os.path.dirname(path), f), cwd)
             argv += ["-include", f]
         argv += list(tu.get("extra_args", []))
-        argv += ["-c", path]
-        by.setdefault(tu["platform"], []).append({"file": path, "directory": os.path.dirname(path), "arguments": argv})
+        argv += ["-c", sp(path)]
+        entry = {"file": sp(path), "arguments": argv}
+        if form == 0:
+            entry["directory"] = os.path.dirname(path)
+        elif form == 2:
+            entry["directory"] = os.path.relpath(os.path.dirname(path), root)
+        by.setdefault(tu["platform"], []).append(entry)
     os.makedirs(os.path.join(base, "dbs"), exist_ok=True)
     lines = []
     for p, entries in by.items():
@@ -211,10 +277,23 @@ def write_dbs(case, base):
     return "analysis.toml"
 
 
+def db_forms(case):
+    """{platform: [form of each entry, in database order]} as write_dbs spells them."""
+    by = {}
+    for i, tu in enumerate(case["tus"]):
+        by.setdefault(tu["platform"], []).append(tu.get("db_form", (i + len(case["files"])) % 3))
+    return by
+
+
 def cli_check(ctx, case, base, full, plats, cells):
     """codebasin -R summary [-p ...] in fresh processes: dumped attribution must be the projection."""
     root, _ = forest.paths(base)
     toml = write_dbs(case, base)
+    for forms in db_forms(case).values():
+        if any(b == 1 and a != 1 for a, b in zip(forms, forms[1:])):
+            cells.add("db:no-directory-after-directory")
+        if 2 in forms:
+            cells.add("db:relative-directory")
     problems = []
     subsets = [plats] + ([[plats[0]]] if len(plats) > 1 else []) + ([plats[1:]] if len(plats) > 2 else [])
     for sub in subsets:
@@ -247,9 +326,17 @@ def run_shard(ctx):
         case = gen_case(rng)
         if ctx.mine(i):
             check_case(ctx, case, base, "R", do_cli=(i < b["cli_cases"] * 2 and i % 2 == 0))
+    rng = ctx.rng("history")
+    for i in range(b["history"]):
+        case = gen_history_case(rng)
+        if ctx.mine(i):
+            check_history(ctx, case, base)
     shutil.rmtree(base, ignore_errors=True)
 
 
 def replay(record, ctx):
+    if len(record["input"]["tus"]) >= 200:
+        res = check_history(ctx, record["input"], os.path.join(ctx.scratch, "c08"))
+        return {"verdict": res, "violations": ctx.acc.violations}
     res = check_case(ctx, record["input"], os.path.join(ctx.scratch, "c08"), "replay")
     return {"verdict": res, "violations": ctx.acc.violations}
